@@ -638,3 +638,36 @@ def uw8(P, C):
          "all %d uses of the kernel pointer precede the first release of table storage (%d release sites)" % (len(reads), len(rel)) if not late else
          "%s at %s is evaluated after the table's arrays were released at %s: with a kernel that is a slice of the table's own knots this reads freed storage" %
          (f.render(f.parent[late[0][0]])[:60], f.loc(late[0][0]), f.loc(late[0][1])))
+
+
+def uw9(P, C):
+    """UW-9: the numerical kernels of the convolution keep the roles of their arguments."""
+    C.rule("UW-9", "convoluted_blossom and divdiff never re-bind a parameter (no assignment, increment, address-of or std::swap of a parameter): "
+           "convolve hands the table spline's knots as (x, nx) and the kernel's as (y, ny), and the result is scaled by the support of the "
+           "TABLE spline, x[nx-1] - x[0]; exchanging the two knot vectors inside the kernel — the divided differences commute — silently "
+           "turns that factor into the kernel's width", floor=2)
+    for name in ("convoluted_blossom", "divdiff"):
+        fs_ = [g for g in P.fns(name) if g.file.endswith("convolve.cpp")]
+        if len(fs_) != 1:
+            raise core.AnalysisBroken("UW-9: %s not found in convolve.cpp" % name)
+        f = fs_[0]
+        pids = {p_["id"]: p_["name"] for p_ in f.params}
+        bad = []
+        for i in f.walk():
+            n = f.nodes[i]
+            tgt = None
+            if n["k"] in ("BinaryOperator", "CompoundAssignOperator") and n.get("op", "").endswith("=") and n["op"] not in ("==", "!=", "<=", ">="):
+                tgt = f.strip(n["ch"][0])
+            elif n["k"] == "UnaryOperator" and n.get("op") in ("++", "--", "&"):
+                tgt = f.strip(n["ch"][0])
+            if tgt is not None and f.k(tgt) == "DeclRefExpr" and f.nodes[tgt]["decl"].get("id") in pids:
+                bad.append((i, "`%s` is written (%s)" % (pids[f.nodes[tgt]["decl"]["id"]], f.render(i)[:40])))
+            cal = n.get("callee")
+            if cal and cal["name"] in ("swap", "exchange", "iter_swap") and cal.get("qname", "").startswith("std::"):
+                for a in f.args(i):
+                    a_ = f.strip(a)
+                    if f.k(a_) == "DeclRefExpr" and f.nodes[a_]["decl"].get("id") in pids:
+                        bad.append((i, "`%s` is exchanged with std::%s" % (pids[f.nodes[a_]["decl"]["id"]], cal["name"])))
+        C.ob("UW-9", name, "parameters-keep-their-roles", not bad, f.loc(bad[0][0]) if bad else f.where(),
+             "none of the %d parameters is re-bound" % len(pids) if not bad else
+             "%s: after that the arguments no longer mean what the caller handed over (the scale x[nx-1]-x[0] is taken from the wrong spline)" % bad[0][1])
